@@ -117,6 +117,8 @@ func renderLoad(tp *simrt.Tape, res *Result, w ref.Warrior, M uint64, is88 bool)
 	comments := flag("comment-lines", 3)
 	blanks := flag("blank-lines", 3)
 	meta := flag("metadata", 3)
+	mixed := flag("mixed-case-letters", 4)
+	commaBlanks := flag("blanks-around-commas", 3)
 	trailing := flag("trailing-comment", 4)
 	noFinalNL := flag("no-final-newline", 3)
 	var out []string
@@ -126,6 +128,18 @@ func renderLoad(tp *simrt.Tape, res *Result, w ref.Warrior, M uint64, is88 bool)
 	for i, ln := range lines {
 		if lower && tp.Draw("rl.lowerline", 2) == 0 {
 			ln = strings.ToLower(ln)
+		}
+		if mixed {
+			b := []byte(ln)
+			for j := range b {
+				if b[j] >= 'A' && b[j] <= 'Z' && tp.Draw("rl.letter", 2) == 0 {
+					b[j] += 'a' - 'A'
+				}
+			}
+			ln = string(b)
+		}
+		if commaBlanks {
+			ln = strings.ReplaceAll(ln, ",", []string{" ,", " , ", "\t,\t"}[tp.Draw("rl.commakind", 3)])
 		}
 		if tabs {
 			ln = strings.ReplaceAll(ln, " ", []string{"  ", "\t", " \t "}[tp.Draw("rl.tabkind", 3)])
@@ -230,6 +244,16 @@ func caseRoundTrip(t *testing.T, tp *simrt.Tape, c *Ctx) (res Result) {
 		if d := diffWarrior(warFromI(got), w); d != "" {
 			res.add("C09", "C09 loader reads "+d, map[string]any{"delivery": which, "got": warStr(warFromI(got)), "want": warStr(w)})
 		}
+	}
+	if tp.Draw("rt.decoy", 2) == 0 {
+		// an earlier read of the same text under another configuration must
+		// not influence this one (no state may survive between calls)
+		dc := cfg
+		dc.CoreSize = gi.Address([]uint64{8000, 800, 80, 8192, 55440}[tp.Draw("rt.decoy.size", 5)])
+		dc.ReadLimit, dc.WriteLimit, dc.Length = dc.CoreSize, dc.CoreSize, min(dc.CoreSize, 100)
+		safeCall(int64(400000+600*len(text)), func() { gi.ParseLoadFile(strings.NewReader(string(text)), dc) })
+		runAsm(t, text, simrt.ReaderPlan{ErrAt: -1}, simrt.ReplayTape(nil), dc)
+		res.stat("probe.decoy-call-with-other-config", 1)
 	}
 	check("plain", simrt.ReaderPlan{ErrAt: -1}, nil)
 	check("drawn", plan, tp)
@@ -495,6 +519,13 @@ func caseLoadReject(t *testing.T, tp *simrt.Tape, c *Ctx) (res Result) {
 		}
 		checkLoadResult(&res, cfgP, eff, got, err, fail, which)
 		return got, err, fail == nil
+	}
+	if tp.Draw("lr.decoy", 2) == 0 {
+		dc := cfg
+		dc.CoreSize = gi.Address([]uint64{8000, 800, 80, 8192, 55440}[tp.Draw("lr.decoy.size", 5)])
+		dc.ReadLimit, dc.WriteLimit, dc.Length = dc.CoreSize, dc.CoreSize, min(dc.CoreSize, 100)
+		safeCall(int64(400000+600*len(delivered)), func() { gi.ParseLoadFile(strings.NewReader(string(delivered)), dc) })
+		res.stat("probe.decoy-call-with-other-config", 1)
 	}
 	g1, e1, ok1 := run(delivered, simrt.ReaderPlan{ErrAt: -1}, nil, "plain")
 	if plan.ErrAt < 0 {
